@@ -300,14 +300,22 @@ extern "C" void harness_c32_sequences()
     verif_assert(eq(*l1, *lucas(n)) && eq(*l2, *lucas(n - 1)), "lucas2 returns L(n), L(n-1)");
     verif_assert(eq(*fibonacci(0), *zero) && eq(*fibonacci(1), *one) && eq(*lucas(0), *integer(2)) && eq(*lucas(1), *one), "initial values");
     verif_assert(eq(*factorial(n), *mul(integer((long)n), factorial(n - 1))), "n! = n (n-1)!");
+    VERIF_END();
+}
+extern "C" void harness_c32_binomial()
+{
     RCP<const Integer> top = sym_integer("top", -6, 20);
     unsigned long k = 1 + verif_choice("k", 8);
     // Pascal: C(t+1,k) = C(t,k) + C(t,k-1)
     RCP<const Integer> tp1 = integer(top->as_integer_class() + 1);
     verif_assert(eq(*binomial(*tp1, k), *add(binomial(*top, k), binomial(*top, k - 1))), "Pascal's rule for binomial(n,k), also for negative n");
     verif_assert(eq(*binomial(*top, 0), *one), "binomial(n,0) == 1");
+    VERIF_END();
+}
+extern "C" void harness_c32_primes()
+{
     // nextprime / probab_prime_p
-    RCP<const Integer> v = sym_integer("v", -3, 200);
+    RCP<const Integer> v = sym_integer("v", -3, verif_param("vmax", 200));
     RCP<const Integer> np = nextprime(*v);
     long vv = L(*v), pp = L(*np);
     verif_assert(pp > vv && isprime(pp), "nextprime returns a prime above its argument");
